@@ -298,6 +298,8 @@ func checkC05(c C05Case, r *Rec) *Violation {
 		}
 		f := NewFetcher(u, cc, log)
 		f.Avail = avail
+		// in a quarter of the cases "unavailable" is said the other way: the variable is cached and its value is the DNE marker
+		f.DNEAsValue = hash64(src)%4 == 0
 		ctxSeq := f.Ctx()
 		o := Safe(func() (eval.Value, error) { return e.TryEval(ctxSeq) })
 		if o.Panic != nil {
@@ -327,6 +329,7 @@ func checkC05(c C05Case, r *Rec) *Violation {
 		// TryEvalBool mirrors TryEval
 		f2 := NewFetcher(u, cc, log)
 		f2.Avail = avail
+		f2.DNEAsValue = f.DNEAsValue
 		var bres bool
 		ob := Safe(func() (eval.Value, error) { b, err := e.TryEvalBool(f2.Ctx()); bres = b; return b, err })
 		switch {
@@ -353,6 +356,9 @@ func checkC05(c C05Case, r *Rec) *Violation {
 	}
 	definite := !m.IsDNE(k)
 	after := kenv.KleeneDecidedAfterDNE(c.Tree, avail)
+	if hash64(src)%4 == 0 && nUnavail > 0 {
+		r.Class("unavailable-said-by-a-DNE-value")
+	}
 	switch {
 	case nUnavail == 0:
 		r.Class("all-available")
@@ -373,7 +379,7 @@ func checkC05(c C05Case, r *Rec) *Violation {
 
 var propC05 = Prop[C05Case]{
 	ID:    "C05",
-	Rule:  "typed random expression, repaired so that no sub-expression fails under the binding, x available/unavailable split of its variables x 16 optimization subsets; oracle: independent Kleene evaluator K on the source tree (definite K => TryEval returns exactly that value; otherwise DNE with nil error, TryEvalBool ErrDNE; never an error); the same through contexts the library builds itself (NewCtxFromVars with every value supplied; a map-backed context holding the available values, completed with Ctx.Set afterwards; a slice-backed context built from the smaller config that knows the available variables only), 3 subsets each. Non-trivial = K is definite, at least one variable is unavailable, and some and/or is decided by an operand located after an unavailable one; distinct by source + split + binding",
+	Rule:  "typed random expression, repaired so that no sub-expression fails under the binding, x available/unavailable split of its variables (unavailable = not cached, or in a quarter of the cases cached with the DNE marker as value) x 16 optimization subsets; oracle: independent Kleene evaluator K on the source tree (definite K => TryEval returns exactly that value; otherwise DNE with nil error, TryEvalBool ErrDNE; never an error); the same through contexts the library builds itself (NewCtxFromVars with every value supplied; a map-backed context holding the available values, completed with Ctx.Set afterwards; a slice-backed context built from the smaller config that knows the available variables only), 3 subsets each. Non-trivial = K is definite, at least one variable is unavailable, and some and/or is decided by an operand located after an unavailable one; distinct by source + split + binding",
 	Gen:   genC05,
 	Check: checkC05,
 }
